@@ -1304,7 +1304,8 @@ struct TemplateCore {
             const SizeT   loop_size      = loop_set->Size();
             SizeT         loop_index     = 0;
 
-            if (loops_items_->Size() <= tag.Level) {
+            // 'Level' counts every open tag (ifs too), so it can be more than one past the last item.
+            while (loops_items_->Size() <= tag.Level) {
                 *loops_items_ += LoopItem{};
             }
 
@@ -1323,6 +1324,7 @@ struct TemplateCore {
                 while (loop_index < loop_size) {
                     LoopItem &item = loops_items_->Storage()[tag.Level];
                     item.Value     = loop_set->GetValue(loop_index);
+                    item.Key       = StringView<Char_T>{}; // No key in an array; drop the one left by an earlier loop.
 
                     if (item.Value != nullptr) {
                         render(s_tag, s_end, content_offset, tag.EndOffset);
@@ -1518,7 +1520,15 @@ struct TemplateCore {
             }
 
             case QOperation::Remainder: { // %
-                left.Value.Number.Integer = (left % right);
+                const SizeT64I divisor = ((right.Type == ExpressionType::RealNumber) ? SizeT64I(right.Value.Number.Real)
+                                                                                    : right.Value.Number.Integer);
+
+                if (divisor == 0) {
+                    return false; // No defined result, like division by zero.
+                }
+
+                // x % -1 is zero for every x; the hardware traps on INT64_MIN % -1.
+                left.Value.Number.Integer = ((divisor == SizeT64I{-1}) ? SizeT64I{0} : (left % right));
                 left.Type                 = ExpressionType::IntegerNumber;
                 break;
             }
